@@ -359,11 +359,41 @@ func genNodeExhaustion(emit func(string)) {
 	emit(mkCase(false, "dbl", true, defTTL, pre2, []thrSpec{{0, []string{"g 9 0"}}, {1, []string{"g 9 0"}}}, sch2))
 }
 
+// thorough only: 3 threads, 2 ids, every subset of pre-existing ids, every schedule of length 5
+func genExhaustive3(emit func(string)) {
+	pats := [][]uint64{{1}, {1, 2}, {2, 1}}
+	for preMask := 0; preMask < 4; preMask++ {
+		var pre []preEnt
+		for i := 0; i < 2; i++ {
+			if preMask>>i&1 == 1 {
+				pre = append(pre, preEnt{3, uint64(i + 1), 0})
+			}
+		}
+		for _, p0 := range pats {
+			for _, p1 := range pats {
+				for _, p2 := range pats {
+					for m := 0; m < 243; m++ {
+						var sch [][2]int64
+						x := m
+						for j := 0; j < 5; j++ {
+							sch = append(sch, [2]int64{0, int64(x % 3)})
+							x /= 3
+						}
+						emit(mkCase(false, "dbl", true, 1000, pre,
+							[]thrSpec{{0, []string{genOp(3, p0), "o"}}, {1, []string{genOp(3, p1)}}, {1, []string{genOp(3, p2)}}}, sch))
+					}
+				}
+			}
+		}
+	}
+}
+
 func generate(r *common.Rand, tier string, emit func(string)) {
 	emit("caps")
 	scale := 1
 	if tier == "thorough" {
-		scale = 12
+		scale = 30
+		genExhaustive3(emit)
 	}
 	genExhaustive(emit)
 	real := []string{"dbl", "dbl", "dbl", "mem", "hyb", "red", "hyr"}
